@@ -319,10 +319,24 @@ fn run(case: &Case05) -> Option<(String, Value)> {
                 return None;
             }
             let had_sauce = first.has_sauce();
-            let again = match first.to_bytes(ext, &save_opts(had_sauce || matches!(ext.as_str(), "bin" | "tnd"), true)) {
+            let with_sauce = had_sauce || matches!(ext.as_str(), "bin" | "tnd");
+            let mut again = match first.to_bytes(ext, &save_opts(with_sauce, true)) {
                 Ok(b) => b,
                 Err(_) => return None,
             };
+            // SAUCE is defined by position: a file whose last 128 bytes begin with "SAUCE00" carries a record. When the
+            // picture's own data ends like that (a font whose glyph bytes spell a record: first seen with a file that had
+            // garbage behind its SAUCE), saving without a record yields a file no reader can tell from one with a record.
+            // Such a picture has to be saved with its record (C11 then guarantees the exact cut); the check does so.
+            if !with_sauce && matches!(icy_engine::SauceData::extract(&again), Ok(Some(_))) {
+                again = match first.to_bytes(ext, &save_opts(true, true)) {
+                    Ok(b) => b,
+                    Err(_) => return None,
+                };
+            }
+            if let Some(p) = std::env::var_os("VERIF_DUMP") {
+                let _ = std::fs::write(p, &again);
+            }
             match load(ext, &again) {
                 Ok(second) => compare(ext, &first, &second, true).map(|(k, d)| (format!("resave-foreign|{k}"), d)),
                 Err(e) => Some((format!("{ext}|resave-foreign|reload-error"), json!({"error": e}))),
